@@ -65,7 +65,23 @@ Definition Y (m : Z) := mkdec m 4.
 Definition G (m : Z) (n : nat) := mkdec m n.
 Definition K (a b c d : Z) := KMod ((a, b), (c, d)).
 Definition L (s : string) := KStr (lb s).
+Definition lbs (l : list string) : bytes := flat_map lb l.
 """
+
+
+def coq_text(text, chunk=3000):
+    """a long text as a Coq `list string` of pieces (one huge literal overflows coqc's stack)"""
+    pieces, cur, n = [], [], 0
+    for ln in text.splitlines(keepends=True):
+        if n + len(ln) > chunk and cur:
+            pieces.append("".join(cur))
+            cur, n = [], 0
+        cur.append(ln)
+        n += len(ln)
+    if cur:
+        pieces.append("".join(cur))
+    return "[" + ";\n ".join(coq_string(x) for x in pieces) + "]"
+
 
 # ----------------------------------------------------------------------------------------
 # A. phonon data sets
@@ -269,15 +285,20 @@ def own_format(d, comment):
 
 
 QHA_CHECKS = r"""
-Definition chk_write (c : string * qha * string * option qha) : bool :=
-  let '(cm, d, t, o) := c in bytes_eqb (print_qha_text (lb cm) d) (lb t).
-Definition chk_read (c : string * qha * string * option qha) : bool :=
-  let '(cm, d, t, o) := c in oqha_veq (parse_qha_text (lb t)) o.
-Definition chk_round (c : string * qha * string * option qha) : bool :=
-  let '(cm, d, t, o) := c in oqha_veq (parse_qha_text (lb t)) (Some (round_qha d)).
+Definition chk_write (c : string * qha * list string * option qha) : bool :=
+  let '(cm, d, t, o) := c in bytes_eqb (print_qha_text (lb cm) d) (lbs t).
+Definition chk_read (c : string * qha * list string * option qha) : bool :=
+  let '(cm, d, t, o) := c in oqha_veq (parse_qha_text (lbs t)) o.
+Definition chk_round (c : string * qha * list string * option qha) : bool :=
+  let '(cm, d, t, o) := c in oqha_veq (parse_qha_text (lbs t)) (Some (round_qha d)).
+(* hypothesis of qha_roundtrip: no line of the comment matches the header pattern *)
+Definition chk_hyp (c : string * qha * list string * option qha) : bool :=
+  let '(cm, d, t, o) := c in
+  forallb (fun l => match header_match (strip l) with None => true | Some _ => false end) (split_lines (lb cm)).
 Eval vm_compute in (bad_cases chk_write cases).
 Eval vm_compute in (bad_cases chk_read cases).
 Eval vm_compute in (bad_cases chk_round cases).
+Eval vm_compute in (bad_cases chk_hyp cases).
 """
 
 
@@ -314,7 +335,7 @@ def stage_qha(ctx, rd):
             return
         f = rd / ("cases_qha_%02d.v" % len(files))
         body = ";\n".join("(%s,\n %s,\n %s,\n %s)" % c[0] for c in shard)
-        write(f, HEADER_COMMON + "Definition cases : list (string * qha * string * option qha) := [\n" + body
+        write(f, HEADER_COMMON + "Definition cases : list (string * qha * list string * option qha) := [\n" + body
               + "].\n" + QHA_CHECKS)
         files.append((f, [c[1] for c in shard]))
         shard, used = [], 0
@@ -351,7 +372,7 @@ def stage_qha(ctx, rd):
                 ctx.failure("qha-write-format", "write_energy output differs from the documented fixed format at line %d" % (k + 1),
                             input=dict(data=jsonable_qha(d), comment=comment), line=k + 1,
                             expected=wl[k] if k < len(wl) else None, observed=tl[k] if k < len(tl) else None)
-        rec = (coq_string(comment), qha_term(d), coq_string(text), obs_qha_term(o))
+        rec = (coq_string(comment), qha_term(d), coq_text(text), obs_qha_term(o))
         if used + nlines > shard_lines and shard:
             flush()
         shard.append((rec, i))
@@ -881,6 +902,21 @@ def stage_fill(ctx, rd):
         if ref_ok and (res.exit_code != 0 or res.exception is not None):
             ctx.failure("fill-int-column", "cij fill crashes on a table with an integer-typed column (%r) although the symmetry "
                         "fill of the parsed file succeeds" % (res.exception,), input=dict(system="hexagonal", file=text))
+        # observations outside the quantifier of the property (recorded in the evidence, not failures):
+        # labels the reader accepts but the command does not
+        obs = {}
+        for nm_, lab in (("prefix C_", "V C_11 c_33 c_12 c_13 C_44"), ("lower-triangle label c21", "V c11 c33 c21 c13 c44")):
+            text = "hdr\n100.5 2 50.25\n%s\n100.5 300.5 250.5 100.5 80.5 70.5\n90.25 350.5 290.5 120.5 95.125 85.5\n" % lab
+            (rd / "fill_obs.dat").write_text(text)
+            res = CliRunner().invoke(F.main, ["-s", "hexagonal", "fill_obs.dat"])
+            ref, _ = safe_read(E.read_elast_data, rd / "fill_obs.dat")
+            try:
+                E.apply_symetry_on_elast_data(ref, {"system": "hexagonal"})
+                rk = "symmetry fill of the parsed file succeeds"
+            except BaseException as e:
+                rk = "symmetry fill of the parsed file raises %s" % type(e).__name__
+            obs[nm_] = dict(file=text, command="exit %s %r" % (res.exit_code, res.exception), reference=rk)
+        ctx.extra["observations_outside_quantifier"] = obs
     finally:
         os.chdir(cwd)
     f = rd / "cases_fill.v"
@@ -924,14 +960,15 @@ def run(ctx):
     ffile = stage_fill(ctx, rd)
 
     shutil.copy(PROPS / "Prop_C17.v", rd / "Prop_C17.v")
-    ctx.prove(rd / "Prop_C17.v", "Prop_C17.v (round-trip theorems)", "theorem-file")
+    ctx.prove(rd / "Prop_C17.v", "Prop_C17.v (qha_roundtrip, qha_roundtrip_rounding, qha_roundtrip_text, elast_parse_spec and "
+              "key/layout/dict lemmas, fill_cli_structure, 3 examples)", "theorem-file")
 
     res = ctx.run_shards([f for f, _ in qfiles], label="write/read tie")
     for f, idx in qfiles:
         ok, fl, out = res[f]
         if fl:
-            names = ["write_energy bytes", "read_energy vs model", "model parse vs rounded data"]
-            bad = {names[j]: [idx[i] for i in l] for j, l in enumerate(fl[:3]) if l}
+            names = ["write_energy bytes", "read_energy vs model", "model parse vs rounded data", "comment hypothesis"]
+            bad = {names[j]: [idx[i] for i in l] for j, l in enumerate(fl[:4]) if l}
             if bad:
                 ctx.extra.setdefault("tie_failing", {})[f.name] = bad
     ctx.run_shards([rfile], label="reader tie")
